@@ -266,6 +266,42 @@ func ruleDistance(r *Run, p string) {
 			r.Analysed(name)
 			site := w.Pos(fn.Pos()) + " " + name
 			accs := accumulators(w, fn, map[int]string{1: "x", 2: "y"})
+			if fn == batch && len(accs) == 0 {
+				// element-wise delegation: results[i] = Calculate(receiver, queries[i], target) for every i
+				cb := NewCanon(w)
+				okDel := false
+				allInstrs(fn, func(in ssa.Instruction) {
+					st, ok := in.(*ssa.Store)
+					if !ok {
+						return
+					}
+					ia, ok := st.Addr.(*ssa.IndexAddr)
+					if !ok {
+						return
+					}
+					if _, ok := ia.X.(*ssa.MakeSlice); !ok {
+						return
+					}
+					call, ok := st.Val.(*ssa.Call)
+					if !ok || staticCallee(call.Common()) != calc || len(call.Call.Args) != 3 {
+						return
+					}
+					if cb.S(ia) == cb.S(ia.X)+"[range]" && cb.S(call.Call.Args[0]) == "P0" && cb.S(call.Call.Args[1]) == "P1[range]" && cb.S(call.Call.Args[2]) == "P2" {
+						okDel = true
+					}
+				})
+				if okDel {
+					r.Ok(p+".DEF", "def:"+name+":acc", site, "batch element i = Calculate(queries[i], target) of the same implementation (checked above)")
+					okLen := false
+					allInstrs(fn, func(in ssa.Instruction) {
+						if mk, ok := in.(*ssa.MakeSlice); ok && NewCanon(w).S(mk.Len) == "len(P1)" {
+							okLen = true
+						}
+					})
+					r.Check(okLen, p+".BATCH", "batch:"+name+":len", site, "one result per query", "result slice is not len(queries) long")
+					continue
+				}
+			}
 			if len(accs) != 1 {
 				r.Und(p+".DEF", "def:"+name+":acc", site, fmt.Sprintf("%d accumulation loops found, expected 1", len(accs)))
 				continue
